@@ -349,6 +349,19 @@ def bcd_cases(g, n_d):
     bads = invalid_settings(g)
     fmts = ["%Y-%m-%d", "%d %B %Y", "%H:%M"]
     matching = {"%Y-%m-%d": "2015-05-12", "%d %B %Y": "12 May 2015", "%H:%M": "10:45"}
+    # (d') an invalid dict met right after its valid twin: same setting names, a wrongly typed value whose str() equals
+    # the valid one ("rejected whatever ..." must not depend on an equal-looking configuration having been validated before)
+    for i in range(max(40, n_d // 10)):
+        valid = {}
+        while not any(not isinstance(v, str) for v in valid.values()):
+            valid = g.settings(4)
+        key = rnd.choice([k for k, v in valid.items() if not isinstance(v, str)])
+        twin = dict(valid)
+        twin[key] = str(valid[key])
+        s = rnd.choice(["12 May 2015", "", "yesterday", "1484823450", g.string()])
+        kw = rnd.choice([{}, {"languages": ["en"]}])
+        out.append(({"cls": "a", "s": s, "formats": None, "kw": kw, "settings": valid, "api": "parse"}, "must"))
+        out.append(({"cls": "d", "s": s, "formats": None, "kw": kw, "settings": twin, "api": rnd.choice(["parse", "ddp"])}, "must"))
     for i in range(n_d):
         bad = dict(rnd.choice(bads))
         if rnd.random() < 0.5:
